@@ -97,6 +97,12 @@ CHECKS = {
          "and a history with no enabled worker and unfinished scripts is a deadlock/lost wake-up (four hand-made mutants of prwlock-general.c are caught within the quick budget). Both models (native pthread and general, selected through "
          "the repository's CMake option) run OS-scheduled stress up to 64 threads with perturbation, readers-share and try-while-writer handshakes, plain payload under TSan and a no-progress watchdog.",
     note="Scheduling points are the pthread calls and the critical sections; liveness is bounded (finite rounds)."),
+ "C06": dict(cat="exploration", ref="§3 C06",
+    technique="multi-process agents driven against a reference model with call/return events at the client boundary; counter read from glibc's semaphore file; blocking probes; k-exclusion stress; SIGKILL crash-point enumeration (wrapper, strace) + documented recovery",
+    text="2-3 agent processes with up to 6 handles each run generated histories of new(OPEN|CREATE)/acquire/release/take_ownership/free over 1-3 names; after every call the existence and exact counter of every name in /dev/shm "
+         "are compared with the model (instances, name binding, ownership); acquires on an empty counter must block until another handle releases; N processes x M threads must never exceed k holders and conserve the units; "
+         "scripted children are SIGKILLed before/after every IPC libc call (thorough: at every occurrence of the relevant system calls via strace) and the documented open / take ownership / free / create sequence must restore a fresh counter.",
+    note="Counter inspection relies on glibc's named-semaphore file layout; creator frees without ownership are outside the documented behaviour and not generated."),
 }
 
 NOT_YET = {}
